@@ -63,7 +63,7 @@ def fillTemplate (d : Dialect) (name : List Char) (args : List Piece') : Option 
         | .text s => acc ++ s
         | .hole i req => acc ++ operand (args.getD i ([], 0)) false (req.getD ps) .Both) []
       match od.coalesce with
-      | some dflt => some ("COALESCE(".toList ++ text ++ ", ".toList ++ dflt ++ [')'], coalescedStrength)
+      | some dflt => some (['C', 'O', 'A', 'L', 'E', 'S', 'C', 'E', '('] ++ text ++ [',', ' '] ++ dflt ++ [')'], coalescedStrength)
       | none => some (text, ps)
 
 def quoteSql (s : List Char) : List Char :=
@@ -71,14 +71,14 @@ def quoteSql (s : List Char) : List Char :=
 
 /-- `translate_literal` -/
 def litSql : Lit → List Char
-  | .null => "NULL".toList
+  | .null => ['N', 'U', 'L', 'L']
   | .int i => Model.Pratt.litSrc (.int i)
-  | .bool b => if b then "true".toList else "false".toList
+  | .bool b => if b then ['t', 'r', 'u', 'e'] else ['f', 'a', 'l', 's', 'e']
   | .float m e => Model.Pratt.floatText m e
   | .str s => quoteSql s
 
 def fn1Std : Fn1 → List Char
-  | .abs => "std.math.abs".toList
+  | .abs => ['s', 't', 'd', '.', 'm', 'a', 't', 'h', '.', 'a', 'b', 's']
 
 /-- a binary std operator on translated operands (`nl`/`nr`: the operand is the literal NULL) -/
 def binNode (d : Dialect) (o : BinOp) (nl nr : Bool) (a b : Piece') : Option Piece' :=
@@ -87,7 +87,7 @@ def binNode (d : Dialect) (o : BinOp) (nl nr : Bool) (a b : Piece') : Option Pie
     -- process_null
     let x := if nl then b else a
     let t := operand x true isNullStrength .Both
-    some (t ++ (if o = .Eq then " IS NULL".toList else " IS NOT NULL".toList), isNullStrength)
+    some (t ++ (if o = .Eq then [' ', 'I', 'S', ' ', 'N', 'U', 'L', 'L'] else [' ', 'I', 'S', ' ', 'N', 'O', 'T', ' ', 'N', 'U', 'L', 'L']), isNullStrength)
   else match sqlBinOf name with
     | some sb =>
       let s := sb.strength
@@ -111,18 +111,18 @@ def translate (d : Dialect) : PExpr → Option Piece'
   | .caseB c v rest => do
     let tv ← translate d v
     match c, rest with
-    | .lit (.bool true), .caseEnd => pure ("CASE ELSE ".toList ++ tv.1 ++ " END".toList, otherExprStrength)
+    | .lit (.bool true), .caseEnd => pure (['C', 'A', 'S', 'E', ' ', 'E', 'L', 'S', 'E', ' '] ++ tv.1 ++ [' ', 'E', 'N', 'D'], otherExprStrength)
     | _, _ =>
       let tc ← translate d c
       let tl ← caseBody d rest
-      pure ("CASE WHEN ".toList ++ tc.1 ++ " THEN ".toList ++ tv.1 ++ tl, otherExprStrength)
-  | .caseEnd => some ("CASE ELSE NULL END".toList, otherExprStrength)
+      pure (['C', 'A', 'S', 'E', ' ', 'W', 'H', 'E', 'N', ' '] ++ tc.1 ++ [' ', 'T', 'H', 'E', 'N', ' '] ++ tv.1 ++ tl, otherExprStrength)
+  | .caseEnd => some (['C', 'A', 'S', 'E', ' ', 'E', 'L', 'S', 'E', ' ', 'N', 'U', 'L', 'L', ' ', 'E', 'N', 'D'], otherExprStrength)
   | .between x lo hi => do
     let tx ← translate d x
     let tl ← translate d lo
     let th ← translate d hi
     let s := betweenOperandStrength
-    pure (operand tx true s .Both ++ " BETWEEN ".toList ++ operand tl true s .Both ++ " AND ".toList ++ operand th true s .Both,
+    pure (operand tx true s .Both ++ [' ', 'B', 'E', 'T', 'W', 'E', 'E', 'N', ' '] ++ operand tl true s .Both ++ [' ', 'A', 'N', 'D', ' '] ++ operand th true s .Both,
           otherExprStrength)
   | .fn1 f x => do
     let tx ← translate d x
@@ -132,12 +132,12 @@ def caseBody (d : Dialect) : PExpr → Option (List Char)
   | .caseB c v rest => do
     let tv ← translate d v
     match c, rest with
-    | .lit (.bool true), .caseEnd => pure (" ELSE ".toList ++ tv.1 ++ " END".toList)
+    | .lit (.bool true), .caseEnd => pure ([' ', 'E', 'L', 'S', 'E', ' '] ++ tv.1 ++ [' ', 'E', 'N', 'D'])
     | _, _ =>
       let tc ← translate d c
       let tl ← caseBody d rest
-      pure (" WHEN ".toList ++ tc.1 ++ " THEN ".toList ++ tv.1 ++ tl)
-  | .caseEnd => some " ELSE NULL END".toList
+      pure ([' ', 'W', 'H', 'E', 'N', ' '] ++ tc.1 ++ [' ', 'T', 'H', 'E', 'N', ' '] ++ tv.1 ++ tl)
+  | .caseEnd => some [' ', 'E', 'L', 'S', 'E', ' ', 'N', 'U', 'L', 'L', ' ', 'E', 'N', 'D']
   | _ => none
 end
 
@@ -231,7 +231,6 @@ def sopOf : STok → Option SOp
   | .word ['A', 'N', 'D'] => some .and | .word ['O', 'R'] => some .or | .word ['R', 'E', 'G', 'E', 'X', 'P'] => some .regexp
   | _ => none
 
-def kw (s : String) : STok := .word s.toList
 
 def colOfWord (w : List Char) : Option Nat :=
   match w with
